@@ -52,6 +52,8 @@ var rShapes = [][2]string{
 	{"keys/a", "keys/a_b"},
 	{"keys/a_b", "keys/a"},
 	{"/var/lib/acra/.acrakeys", "/var/lib/acra/.acrakeys.bak"},
+	// a key directory is a path chosen by the operator; on a file system `keys[1]` is an ordinary name
+	{"keys[1]", "keys1"},
 }
 
 // rSite is the place of one Redis-backed keystore: server, database, key prefix.
@@ -262,7 +264,7 @@ func runRedisHistory(r *ev.Run, hidx int) {
 	var cs [2]*runCtx
 	for i := 0; i < 2; i++ {
 		rd := &rSite{srv: srv, db: db, dir: shape[i], sibling: shape[1-i], foreign: nForeign}
-		s, err := openStoreAt(cfg, rd)
+		s, err := openStoreAt(rVariant(cfg, shape[i]), rd)
 		if err != nil {
 			r.Inconclusive(fmt.Sprintf("redis history %d: cannot open %s at %q: %v", hidx, cfg.name, shape[i], err))
 			return
@@ -347,6 +349,14 @@ func runRedisHistory(r *ev.Run, hidx int) {
 	r.Count("redis_histories_with_unrelated_keys="+bucketForeign(nForeign), 1)
 	r.SampleN(cfg.name, 1, map[string]interface{}{"layer": "Redis-backed keystores", "config": cfg.name, "history": hidx, "database": db,
 		"unrelated_keys": nForeign, "keystore_" + shape[0]: cs[0].s.trace, "keystore_" + shape[1]: cs[1].s.trace})
+}
+
+// rVariant marks a configuration whose key prefix holds glob metacharacters (the class goes into the signatures).
+func rVariant(cfg config, prefix string) config {
+	if strings.ContainsAny(prefix, "*?[]\\") {
+		cfg.variant = "(key-prefix-with-glob-metacharacters)"
+	}
+	return cfg
 }
 
 func bucketForeign(n int) string {
